@@ -88,6 +88,7 @@ class Iter:
 class PyObj:
     ref: Any                  # z3 Ref expr
     fresh: bool = False       # allocated in this activation and not escaped
+    stable: bool = False      # immutable, or owned by a treespec / the engine (not reachable by user callbacks)
 
 
 @dataclass(frozen=True)
@@ -165,13 +166,31 @@ class NodeVec:
         d = {k: z3.Store(a, i, nv.get(k)) for k, a in self.f}
         return NodeVec(self.len, tuple(d.items()), self.name)
 
-    def append_slice(self, src: 'NodeVec', lo, hi) -> 'NodeVec':
-        """self ++ src[lo:hi]  (arrays as lambdas, no quantifier)."""
-        j = z3.Int('j!lam')
-        d = {}
-        for k, a in self.f:
-            d[k] = z3.Lambda([j], z3.If(j < self.len, z3.Select(a, j), z3.Select(src.arr(k), lo + (j - self.len))))
-        return NodeVec(self.len + (hi - lo), tuple(d.items()), self.name)
+    def append_slice(self, src: 'NodeVec', lo, hi, rev=False):
+        """(self ++ src[lo:hi], facts).  The result is a fresh vector characterised by pattern-guarded axioms
+        (E-matching friendly; no lambda terms).  rev: the source range is read through reverse iterators."""
+        tag = f'{self.name or "vec"}+{next(_counter)}'
+        out = NodeVec(self.len + (hi - lo), tuple((k, z3.Array(f'{tag}.{k}', Int, s)) for k, s in NODE_FIELDS.items()),
+                      self.name)
+        j = z3.Int(f'j!{tag}')
+        facts = []
+        keep_old = not (z3.is_int_value(self.len) and self.len.as_long() == 0)
+        for k, _ in self.f:
+            if keep_old:
+                facts.append(z3.ForAll([j], z3.Implies(z3.And(0 <= j, j < self.len), out.sel(k, j) == self.sel(k, j)),
+                                       patterns=[out.sel(k, j)]))
+            srcidx = (src.len - 1 - (lo + (j - self.len))) if rev else (lo + (j - self.len))
+            facts.append(z3.ForAll([j], z3.Implies(z3.And(self.len <= j, j < self.len + (hi - lo)),
+                                                   out.sel(k, j) == src.sel(k, srcidx)), patterns=[out.sel(k, j)]))
+        return out, facts
+
+    def reversed(self):
+        tag = f'{self.name or "vec"}~{next(_counter)}'
+        out = NodeVec(self.len, tuple((k, z3.Array(f'{tag}.{k}', Int, s)) for k, s in NODE_FIELDS.items()), self.name)
+        j = z3.Int(f'j!{tag}')
+        facts = [z3.ForAll([j], z3.Implies(z3.And(0 <= j, j < self.len), out.sel(k, j) == self.sel(k, self.len - 1 - j)),
+                           patterns=[out.sel(k, j)]) for k, _ in self.f]
+        return out, facts
 
 
 @dataclass(frozen=True)
